@@ -11,6 +11,7 @@ import (
 	"os/exec"
 	"path/filepath"
 	"runtime"
+	"strconv"
 	"strings"
 	"sync"
 	"time"
@@ -99,14 +100,22 @@ type Pool struct {
 
 func NewPool(size int, extraEnv ...string) *Pool {
 	if size <= 0 {
+		// measured in this VM: throughput peaks around 10 single-threaded workers (each query allocates
+		// ~12 MB of I/O buffers; more workers only contend on page faults and memory bandwidth)
 		size = runtime.NumCPU()
+		if size > 10 {
+			size = 10
+		}
+		if v, err := strconv.Atoi(os.Getenv("VERIF_POOL")); err == nil && v > 0 {
+			size = v
+		}
 	}
 	return &Pool{sem: make(chan struct{}, size), Env: extraEnv, Recycle: 1500, Horizon: 90 * time.Second}
 }
 
 func (p *Pool) start() (*worker, error) {
 	c := exec.Command(filepath.Join(binDir(), "vrun"))
-	c.Env = childEnv(append([]string{"GOMAXPROCS=2"}, p.Env...)...)
+	c.Env = childEnv(append([]string{"GOMAXPROCS=1"}, p.Env...)...)
 	stdin, err := c.StdinPipe()
 	if err != nil {
 		return nil, err
